@@ -169,6 +169,24 @@ pub fn probes(tier: &str) -> Vec<Probe> {
     }
     p.push(Probe::Compact(vec![]));
     p.push(Probe::Uncompact(vec![], 5));
+    // one cell finer than the target together with very coarse cells: the honest answer is Err,
+    // whatever the fan-out of the others would have been
+    {
+        let base = rc::all_cells(0);
+        let c29 = rc::encode(rc::Tuple { face: 4, quintant: 2, s: 0x2aaa_aaaa_aaaa_aa, res: 29 }).unwrap();
+        let c5 = rc::ancestor(c29, 5).unwrap();
+        let c12 = rc::ancestor(c29, 12).unwrap();
+        for t in [-1, 0, 1, 5, 11, 20, 28] {
+            let mut l = base.clone();
+            l.extend(base.iter().copied());
+            l.push(c29);
+            p.push(Probe::Uncompact(l, t));
+            p.push(Probe::Uncompact(vec![c5, c29], t));
+            p.push(Probe::Uncompact(vec![c29, c5], t));
+            p.push(Probe::Uncompact(vec![0, c29], t));
+            p.push(Probe::Uncompact(vec![c5, c12, c29], t));
+        }
+    }
     let lats = [90.0, -90.0, 90.0 - 1e-9, -90.0 + 1e-9, 89.99, -89.99, 0.0, 45.0, -45.0];
     let lons = [0.0, 180.0, -180.0, 360.0, -360.0, 540.0, -540.0, 1e6, -1e6, 1e15];
     for &lat in &lats {
@@ -203,7 +221,7 @@ fn in_scope(p: &Probe) -> bool {
     };
     match p {
         Probe::Children(c, Some(r)) => fan(*c, *r),
-        Probe::Uncompact(v, r) => v.iter().all(|&c| fan(c, *r)),
+        Probe::Uncompact(v, r) => v.iter().any(|&c| sub_res(c) > *r) || v.iter().all(|&c| fan(c, *r)),
         _ => true,
     }
 }
